@@ -39,6 +39,13 @@ class C20(SpanProp):
             off = (r.below(20), r.below(4), r.below(11))
             n += 1
             out.append(spangen.span_case('c%d' % n, le, tab, t, ['nav', 'lines'], off=off))
+        # windows of a parent that itself has a start position (a window of a window), wider alphabet, tab widths up to 16
+        for i in range(250 if tier == 'quick' else 3000):
+            le = r.choice(['lf', 'cr', 'crlf'])
+            t = spangen.random_text(r, ALPHA + ['sp', 'z2', 'w4', 'z3'], 8)
+            off = (1 + r.below(20), r.below(4), r.below(14))
+            n += 1
+            out.append(spangen.span_case('c%d' % n, le, 1 + r.below(16), t, ['win'], off=off))
         return out
 
     def nontrivial(self, ct, it):
@@ -88,7 +95,7 @@ class C20(SpanProp):
                         continue
                     if e[1] == 'PANIC':
                         fails.append(((gi, ei), 'clipped(%s) panics' % e[0])); continue
-                    want = ['%d..%d' % (w[0][0], w[1][0]), fmt_pos(w[0]), fmt_pos(w[1]), fmt_span(*w), 'T']
+                    want = ['%d..%d' % (w[0][0] - c['off'][0], w[1][0] - c['off'][0]), fmt_pos(w[0]), fmt_pos(w[1]), fmt_span(*w), 'T']    # bytes relative to the parent string
                     for nm, wv, got in zip(['text', 'start_position', 'end_position', 'full_span', 'owned==borrowed'], want, e[1:6]):
                         if got != wv:
                             fails.append(((gi, ei), '%s of window %s: got %s, expected %s' % (nm, e[0], got, wv)))
